@@ -59,11 +59,63 @@ REQUIRED_ENTITIES = {"&": "&amp;", "<": "&lt;", '"': "&quot;"}
 OPTIONAL_ENTITIES = {">": ("&gt;", ord(">")), "'": ("&apos;", ord("'"), "&#39;", "&#x27;")}
 
 
+ESC_PROBES = [chr(c) for c in range(32, 127)] + ["", "\u00e9", "\u65e5\u672c", "a&b<c>\"d'e", "&&", "x\"", "\"x", "<<>>", "a/b?c=d&e=f",
+              "\u00e9&\u65e5<", "&amp;", "data:image/svg+xml;utf8,<svg xmlns=\"x\">&</svg>", "''", "tail&"]
+
+
+def _xml_unescape_strict(out):
+    """decode the five predefined entities and numeric references; None if a raw & < \" remains"""
+    import re
+    res = []
+    i = 0
+    while i < len(out):
+        ch = out[i]
+        if ch in '<"':
+            return None
+        if ch == "&":
+            m = re.match(r"&(amp|lt|gt|quot|apos|#\d+|#x[0-9a-fA-F]+);", out[i:])
+            if not m:
+                return None
+            e = m.group(1)
+            res.append({"amp": "&", "lt": "<", "gt": ">", "quot": '"', "apos": "'"}.get(e) or (
+                chr(int(e[2:], 16)) if e.startswith("#x") else chr(int(e[1:]))))
+            i += len(m.group(0))
+            continue
+        res.append(ch)
+        i += 1
+    return "".join(res)
+
+
+def pe_classify_escaper(f, path):
+    """semantic recognition by partial evaluation on probe strings (every printable ASCII character alone, plus mixed strings):
+    the result must decode back to the input and contain no raw & < ".  -> ('ok' | 'broken' | None, detail)"""
+    from . import peval
+    raw = f.fns.get(path)
+    if not raw or raw.get("inputs") != ["&str"] or raw.get("output") not in ("std::string::String",):
+        return None, None
+    bad = {}
+    entities = 0
+    for probe in ESC_PROBES:
+        pe = peval.PEval(f, max_steps=200000)
+        r = pe.run(path, [("ref", ("const", ("str", probe)))])
+        if r.kind != "ret" or r.value == TOP or r.value[0] != "string" or not all(isinstance(x, int) for x in r.value[1]):
+            return None, "%s on %r" % (r.why or r.kind, probe)
+        out = "".join(chr(c) for c in r.value[1])
+        if "&" in out and out != probe:
+            entities += 1
+        if _xml_unescape_strict(out) != probe:
+            bad[probe] = out
+    if entities == 0:
+        return None, None  # not an escaper at all (identity, trimming, ...)
+    return ("broken" if bad else "ok"), (bad or "decodes back on %d probes" % len(ESC_PROBES))
+
+
 def classify_escaper(f, path):
     """('ok' | 'broken' | None, detail)"""
     t = escaper_table(f, path)
     if t is None:
-        return None, None
+        k, d = pe_classify_escaper(f, path)
+        return k, d
     looks = sum(1 for c, e in t.items() if isinstance(e, str) and e.startswith("&") and e.endswith(";"))
     if looks == 0:
         return None, None
